@@ -1680,9 +1680,20 @@ def run(ctx):
         ctx.parallel(fn, [n] * 16)
         ctx.note(f"wall_{name}_s", round(time.time() - t0, 1))
     _generator_floors(ctx)
+    # coverage-guided campaigns over raw object bodies (E3): names are content hashes; a no-op edit of a parsed object that
+    # git's writers could have emitted (and git fsck --strict passes) re-serialises to the same bytes
+    from .. import fuzz
+
+    t0 = time.time()
+    fuzz.run_campaigns(ctx, "vf.fuzzt.c01", [("object_body", ctx.scale(10000, 1500000), ctx.scale(8, 16))])
+    ctx.note("wall_fuzz_s", round(time.time() - t0, 1))
 
 
 def replay(ctx, check, case):
+    if check.startswith("fuzz"):
+        from .. import fuzz
+
+        return fuzz.replay(ctx, case, check)
     _d()
     if check == "machine":
         case = dict(case)
